@@ -33,7 +33,7 @@ impl Monitor for C12 {
 		"C12"
 	}
 	fn rule(&self) -> String {
-		"C01's replay space (small/medium histories); the incremental API (parse_header, parse_start, parse_event per call, parse_metadata) is driven over the instrumented source under schedules {whole, 1-byte, fixed 2/3/7/64 and one drawn from {4..17, 255..257, 512, 8192}, random 1..4, random 1..200, two-piece splits: ALL for every 6th file <= 2.5 KB in quick and every 2nd file <= 8 KB in thorough, else 32 random}. Online monitor after EVERY call: bytes_read() == bytes delivered by the counting source - 15 (header); row count never decreases; the completed rows (rows closed by Frame End >= 3.0; all but the open row otherwise) equal, column by column, the same prefix of the one-shot game (checked at every event for the newest completed row and in full at end of stream). Final: start/end/metadata/gecko via the Game trait equal the one-shot result. One evaluation = one (file, schedule) run. distinct = workload classes x schedule; counters give calls monitored.".into()
+		"C01's replay space (small/medium histories; every 5th generated replay also carries unknown events with 2..600-byte payloads); the incremental API (parse_header, parse_start, parse_event per call, parse_metadata) is driven over the instrumented source under schedules {whole, 1-byte, fixed 2/3/7/64 and one drawn from {4..17, 255..257, 512, 8192}, random 1..4, random 1..200, two-piece splits: ALL for every 6th file <= 2.5 KB in quick and every 2nd file <= 8 KB in thorough, else 32 random}. Online monitor after EVERY call: bytes_read() == bytes delivered by the counting source - 15 (header); row count never decreases; the completed rows (rows closed by Frame End >= 3.0; all but the open row otherwise) equal, column by column, the same prefix of the one-shot game (checked at every event for the newest completed row and in full at end of stream). Final: start/end/metadata/gecko via the Game trait equal the one-shot result. One evaluation = one (file, schedule) run. distinct = workload classes x schedule; counters give calls monitored.".into()
 	}
 	fn assumptions(&self) -> Vec<String> {
 		vec!["the one-shot reader is the reference for the final game (itself checked against the independent model by C03/C04)".into(), "before v3.0 nothing in the stream closes the last frame, so the last row is only compared when it is materially complete".into()]
@@ -48,6 +48,32 @@ impl Monitor for C12 {
 		let mut out = CaseOut::default();
 		let Some((desc, bytes, truth)) = case_input(ctx.tier.pick(&self.quick, &self.thorough), &self.fixtures, ctx.seed, idx, &mut out) else { return out };
 		let base: Vec<String> = out.classes.iter().take(2).cloned().collect();
+		// a fifth of the generated replays additionally carry unknown events (declared in the payload
+		// table, payload 2..600 bytes) at random boundaries: accepted input for which the incremental
+		// API must equal the one-shot reader just the same
+		let mut bytes = bytes;
+		let mut truth = truth;
+		if idx >= self.fixtures.len() && idx % 5 == 0 {
+			let mut r2 = crate::rng::Rng::derive(ctx.seed, 0xC12A ^ idx as u64);
+			let mut p = crate::mutate::split(&bytes, &truth);
+			let code = *r2.pick(&[0x11u8, 0x40, 0x7f, 0xfe]);
+			if !p.table.iter().any(|(c, _)| *c == code) {
+				let sz = *r2.pick(&[2usize, 3, 64, 257, 300, 600]);
+				p.table.push((code, sz as u16));
+				let first_end = p.events.iter().position(|(c, _)| *c == 0x39).unwrap_or(p.events.len());
+				for _ in 0..r2.range(1, 4) {
+					let j = r2.range(1, first_end.max(1));
+					let e = (code, r2.bytes(sz));
+					p.events.insert(j, e);
+				}
+				let b2 = crate::mutate::assemble(&p, true);
+				if let Ok(m2) = crate::model::parse(&b2) {
+					bytes = b2;
+					truth = m2;
+					out.class("with-unknown-events".to_string());
+				}
+			}
+		}
 		let one = match common::slp_read(&bytes, false, false) {
 			Ok(g) => g,
 			Err(f) => {
